@@ -1146,6 +1146,11 @@ def run(ctx):
     try:
         import c19_gates
         gate_report = c19_gates.generate()
+        import c19_opens
+        open_report = c19_opens.generate()
+        gate_report["open_entries"] = open_report["entries"]
+        gate_report["open_occurrences"] = open_report["occurrences"]
+        gate_report["files_read_for_opens"] = open_report["files_read"]
     except Exception as e:
         ctx.note("translator T-gate failed: %r" % (e,))
         ctx.violation("translator", {"what": "T-gate can no longer read the stream-opening call sites", "error": repr(e)},
@@ -1157,6 +1162,15 @@ def run(ctx):
     if not ok:
         proof_broken = True
         ctx.note("proof obligations failed: %s" % failed)
+        try:      # say which stream-opening occurrence moved when the T-open obligation is the one that broke
+            tbl = dict((k, int(n)) for k, n in re.findall(r'\("([^"]+)",\s*(\d+)\)',
+                       open(os.path.join(V.COQ, "theories", "C19", "Opens19.v")).read().split("Definition open_table")[1].split("].")[0]))
+            moved, gone = c19_opens.diff(tbl)
+            if moved or gone:
+                ctx.note("T-open: unclassified or changed stream-opening occurrences (key, committed, found): %s; vanished: %s"
+                         % (moved[:12], gone[:12]))
+        except Exception as e:
+            ctx.note("T-open diff failed: %r" % (e,))
         ctx.note(out[-2500:])
     if not os.path.exists(os.path.join(V.VERIF, "ocaml", "C19", "gen_c19.ml")):
         ctx.violation("obligation", {"what": "model does not compile, nothing to extract", "output": out[-3000:]},
